@@ -143,9 +143,11 @@ def audit_props(pid):
 def q(x):
     from ex import fr
     f = fr(x)
-    if f.numerator >= 0:
-        return "(%d#%d)" % (f.numerator, f.denominator)
-    return "((%d)#%d)" % (f.numerator, f.denominator)
+    n, d = f.numerator, f.denominator
+    if abs(n) < 10**40 and d < 10**40:
+        return "(%d#%d)" % (n, d) if n >= 0 else "((%d)#%d)" % (n, d)
+    # big literals in hexadecimal: Coq parses them in linear time
+    return "(0x%x#0x%x)" % (n, d) if n >= 0 else "((-0x%x)#0x%x)" % (-n, d)
 
 
 def qopt(x):
